@@ -1235,6 +1235,22 @@ func ruleC16Generator(w *World, r *Report) {
 								switch sel.Sel.Name {
 								case "Strings", "Ints", "Float64s", "Sort", "Stable":
 									sorted = true
+								case "Slice", "SliceStable":
+									// a comparison of the keys themselves, `keys[i] < keys[j]`, is the same
+									// total order (map keys are pairwise distinct)
+									if len(call.Args) == 2 {
+										if fl, ok := call.Args[1].(*ast.FuncLit); ok && len(fl.Body.List) == 1 && len(fl.Type.Params.List) >= 1 {
+											if ret, ok := fl.Body.List[0].(*ast.ReturnStmt); ok && len(ret.Results) == 1 {
+												if be, ok := ret.Results[0].(*ast.BinaryExpr); ok && (be.Op == token.LSS || be.Op == token.GTR) {
+													lx, lok := be.X.(*ast.IndexExpr)
+													rx, rok := be.Y.(*ast.IndexExpr)
+													if lok && rok && exprText(w.Fset, lx.X) == slice && exprText(w.Fset, rx.X) == slice {
+														sorted = true
+													}
+												}
+											}
+										}
+									}
 								}
 							}
 						}
